@@ -607,3 +607,105 @@ Theorem roundtrip_history_nodesc period ops :
   history_ok no_desc16 (new_muxer period) ops ->
   demux_all (concat (map mout_bytes (snd (mux_run (new_muxer period) ops)))) = map Ok (expect (new_muxer period) [] ops).
 Proof. apply (roundtrip_history no_desc16 no_desc_premises no_desc_write (conj eq_refl eq_refl) no_desc_size). Qed.
+
+(* ---------------- per PID: exactly one PES per successful WriteData, in order ---------------- *)
+
+(* the PES data the successful WriteData calls on PID x must come back as, in call order *)
+Fixpoint written_on (x : Z) (s : mstate) (ops : list mop) : list DemuxerData :=
+  match ops with
+  | [] => []
+  | o :: r =>
+      (match o with
+       | MWriteData d => if MuxerData_PID d =? x
+                         then match data_out s d (pa_pkts (snd (mux_step_part s o))) with Some dat => [dat] | None => [] end
+                         else []
+       | _ => []
+       end) ++ written_on x (fst (mux_step_part s o)) r
+  end.
+
+Definition on_x (x : Z) (d : DemuxerData) : bool := DemuxerData_PID d =? x.
+
+Definition pend_keyed (pend : pendl) : Prop := Forall (fun e => DemuxerData_PID (snd e) = fst e) pend.
+
+Lemma pend_keyed_aset pend x dat : pend_keyed pend -> DemuxerData_PID dat = x -> pend_keyed (aset pend x dat).
+Proof.
+  intros H Hd. induction H as [|[k b] r Hk Hr IH]; cbn [aset]; [repeat constructor; exact Hd|].
+  destruct (k =? x) eqn:E; [constructor; [cbn [fst snd] in *; lia|exact Hr]|].
+  destruct (x <? k).
+  - constructor; [exact Hd|]. constructor; assumption.
+  - constructor; [exact Hk|exact IH].
+Qed.
+
+Lemma pend_keyed_get pend x d : pend_keyed pend -> aget pend x = Some d -> DemuxerData_PID d = x.
+Proof.
+  intros H. induction H as [|[k b] r Hk _ IH]; cbn [aget]; [discriminate|].
+  destruct (k =? x) eqn:E; [intros Hd; injection Hd as <-; cbn [fst snd] in Hk; lia|exact IH].
+Qed.
+
+Lemma filter_pend x pend : pend_keyed pend -> StronglySorted Z.lt (map fst pend) ->
+  filter (on_x x) (map snd pend) = match aget pend x with Some d => [d] | None => [] end.
+Proof.
+  intros H Hs. induction H as [|[k b] r Hkb _ IH]; [reflexivity|]. cbn [map fst snd filter aget] in *.
+  apply StronglySorted_inv in Hs. destruct Hs as [Hr Hall]. unfold on_x at 1. rewrite Hkb.
+  destruct (k =? x) eqn:E.
+  - f_equal. rewrite (IH Hr). destruct (aget r x) eqn:Eg; [|reflexivity]. exfalso.
+    assert (Hin : In x (map fst r)) by (apply aget_in; congruence). pose proof (proj1 (Forall_forall _ _) Hall x Hin). lia.
+  - apply (IH Hr).
+Qed.
+
+Lemma tables_out_other s pkts x : x <> C_PIDPAT -> x <> C_pmtStartPID -> filter (on_x x) (tables_out s pkts) = [].
+Proof.
+  intros H1 H2. unfold tables_out. destruct pkts as [|a [|b r]]; try reflexivity.
+  destruct (starts_with_tables _); [|reflexivity]. cbn [filter]. unfold on_x, pat_datum, pmt_datum, Psi.demuxer_data. cbn [DemuxerData_PID].
+  destruct (C_PIDPAT =? x) eqn:E1; [lia|]. destruct (C_pmtStartPID =? x) eqn:E2; [lia|]. reflexivity.
+Qed.
+
+Lemma data_out_pid s d pkts dat : data_out s d pkts = Some dat -> DemuxerData_PID dat = MuxerData_PID d.
+Proof.
+  unfold data_out. destruct (es_find _ _); [|discriminate]. destruct (MuxerData_PES d) as [pes|]; [|discriminate].
+  destruct (PESData_Header pes); [|discriminate]. destruct (filter _ pkts); [discriminate|].
+  intros H. injection H as <-. reflexivity.
+Qed.
+
+Theorem expect_per_pid x : x <> C_PIDPAT -> x <> C_pmtStartPID -> forall ops s pend,
+  pend_keyed pend -> StronglySorted Z.lt (map fst pend) ->
+  filter (on_x x) (expect s pend ops) = (match aget pend x with Some d => [d] | None => [] end) ++ written_on x s ops.
+Proof.
+  intros H1 H2. induction ops as [|o r IH]; intros s pend Hk Hs.
+  - cbn [expect written_on]. rewrite app_nil_r. apply filter_pend; assumption.
+  - cbn [expect written_on]. destruct (mux_step_part s o) as [s' p] eqn:Estep. cbn [fst snd].
+    destruct (step_out s pend o p) as [out pend'] eqn:Eso. rewrite filter_app.
+    assert (Hplain : out = tables_out s (pa_pkts p) -> pend' = pend ->
+              filter (on_x x) out ++ filter (on_x x) (expect s' pend' r) =
+              (match aget pend x with Some d => [d] | None => [] end) ++ written_on x s' r).
+    { intros -> ->. rewrite (tables_out_other s _ x H1 H2). cbn [app]. apply IH; assumption. }
+    destruct o as [es|q|q| |d|pk].
+    1,2,3,4,6: (unfold step_out in Eso; injection Eso as <- <-; cbn [app]; apply Hplain; reflexivity).
+    unfold step_out in Eso. destruct (data_out s d (pa_pkts p)) as [dat|] eqn:Edo.
+    + injection Eso as <- <-. pose proof (data_out_pid s d _ dat Edo) as Hpid.
+      rewrite filter_app, (tables_out_other s _ x H1 H2). cbn [app].
+      rewrite (IH s' _ (pend_keyed_aset pend _ dat Hk Hpid) (aset_sorted pend _ dat Hs)).
+      destruct (MuxerData_PID d =? x) eqn:E.
+      * assert (MuxerData_PID d = x) by lia. subst x. rewrite aget_aset_same.
+        destruct (aget pend (MuxerData_PID d)) as [prev|] eqn:Eg; cbn [filter app].
+        -- unfold on_x at 1. rewrite (pend_keyed_get pend _ prev Hk Eg), Z.eqb_refl. reflexivity.
+        -- reflexivity.
+      * rewrite (aget_aset_other pend _ dat x) by lia.
+        destruct (aget pend (MuxerData_PID d)) as [prev|] eqn:Eg; cbn [filter app]; [|reflexivity].
+        unfold on_x at 1. rewrite (pend_keyed_get pend _ prev Hk Eg), E. reflexivity.
+    + injection Eso as <- <-. destruct (MuxerData_PID d =? x); cbn [app]; apply Hplain; reflexivity.
+Qed.
+
+(* the round trip read per PID: the PES data delivered on a stream PID are exactly those written on it, one per
+   successful WriteData, in order; and nothing is an error *)
+Corollary roundtrip_per_pid D :
+  desc_premises D -> (forall ds bytes, D ds bytes -> desc_bytes ds bytes) -> D [] [] ->
+  (forall ds bytes, D ds bytes -> fold_left (fun k d => k + (2 + calc_descriptor_length d)) ds 0 = Z.of_nat (length bytes)) ->
+  forall period ops, history_ok D (new_muxer period) ops ->
+  exists L, demux_all (concat (map mout_bytes (snd (mux_run (new_muxer period) ops)))) = map Ok L /\
+    forall x, x <> C_PIDPAT -> x <> C_pmtStartPID -> filter (on_x x) L = written_on x (new_muxer period) ops.
+Proof.
+  intros P1 P2 P3 P4 period ops Hok. exists (expect (new_muxer period) [] ops).
+  split; [apply (roundtrip_history D P1 P2 P3 P4 period ops Hok)|].
+  intros x H1 H2. rewrite (expect_per_pid x H1 H2 ops (new_muxer period) []); [reflexivity|constructor|constructor].
+Qed.
